@@ -30,7 +30,8 @@ PROPERTY = "C14"
 LEVEL = "exploration"
 RULE = (
     "case = (algorithm, action space [Discrete(1..6,9) | MultiDiscrete | MultiBinary | named Box: symmetric, "
-    "asymmetric, per-dimension, odd, one-dimensional, partly infinite], observation kind, forced output layer "
+    "asymmetric, per-dimension, odd, one-dimensional, partly infinite], actor head activation [default | None | ReLU "
+    "| Tanh | Sigmoid via net_config head_config, DDPG/TD3/MADDPG/MATD3], observation kind, forced output layer "
     "[none | ties | desc | asc | +-1e30 patterns | all -3e8 | x1e4], noise / squash / vectorisation / mask-form / "
     "infos-order / env-defined-actions config, seed). Inside a case: single observation, batch of one and batched "
     "observations; epsilon in {0,.5,1} or training flag on/off; ALL 2^n-1 masks for n<=5 per exploration setting "
@@ -149,6 +150,20 @@ def cases(tier, seed):
                         for force in FORCES_BOX if not quick else (FORCES_BOX[len(out) % 5], FORCES_BOX[(len(out) + 2) % 5]):
                             add(algo=algo, obs=obs_kind(), act={"type": "box", "name": box}, force=force, ou=ou, expl=expl,
                                 vect_noise=4 if len(out) % 3 == 0 else 1)
+        # ---- non-default actor heads (net_config head_config output_activation): None / ReLU do not squash, so only
+        #      the final clip / clamp of get_action keeps the raw output inside the bounds; Tanh / Sigmoid are rescaled
+        for algo in DET_CONT + MA_DET:
+            for box in ("asym", "perdim", "perdim3", "odd"):
+                for head in ("None", "ReLU", "Tanh", "Sigmoid"):
+                    for k in range(1 if quick else 2):
+                        force = ("scale", "none", "pos_ext", "neg_ext", "ext")[(len(out) + k) % 5] if head in ("None", "ReLU") and k == 0 and len(out) % 3 else "scale"
+                        if algo in DET_CONT:
+                            add(algo=algo, obs=obs_kind(), act={"type": "box", "name": box}, force=force, ou=bool(len(out) % 2),
+                                expl=0.1 if len(out) % 3 else 5.0, vect_noise=1, head=head)
+                        else:
+                            add(algo=algo, obs=obs_kind(["vector", "image", "dict", "vector"]), act={"type": "box", "name": box},
+                                force=force, ou=bool(len(out) % 2), expl=0.1 if len(out) % 3 else 5.0, vect=3 if len(out) % 2 else 0,
+                                envdef=False, head=head)
         # ---- PPO
         for n in (5, 3, 2, 4, 1, 6, 9):
             for force in FORCES_DISC:
@@ -499,7 +514,9 @@ def check_legal(cx, space, action, B, mode, where, **detail):
         rec.hit("within_float32_tolerance_of_bound(info)")
     if out.any():
         r, d = (int(v) for v in np.argwhere(out)[0])
-        rec.violate("legal_action", f"box_out_of_bounds:{mode}", cx.site, algo=cx.algo, box_family=_box_family(cx.case["act"]),
+        head = cx.case.get("head") or "default"
+        unsq = ":unsquashed_head" if head in ("None", "ReLU") else ""
+        rec.violate("legal_action", f"box_out_of_bounds:{mode}{unsq}", cx.site, algo=cx.algo, box_family=_box_family(cx.case["act"]), head=head,
                     row=r, dim=d, value=float(r64[r, d]), low=low, high=high, where=where, **detail)
     return rows
 
@@ -626,6 +643,11 @@ class _BuildFailed(Exception):
     pass
 
 
+def _head_config(head):
+    """Documented net_config route to a non-default actor head (the critic's activation is reset by the learners)."""
+    return {"head_config": {"hidden_size": [16], "output_activation": None if head == "None" else head}}
+
+
 def _build_single(case):
     from vf import zoo
 
@@ -638,6 +660,8 @@ def _build_single(case):
         kw.update(num_atoms=11, v_min=-5.0, v_max=5.0)
     if algo in DET_CONT:
         kw.update(O_U_noise=bool(case["ou"]), expl_noise=float(case["expl"]), vect_noise_dim=int(case.get("vect_noise", 1)))
+    if case.get("head"):
+        kw["net_config"] = _head_config(case["head"])
     if algo == "PPO" and case.get("squash"):
         kw["net_config"] = {"squash_output": True, "head_config": {"hidden_size": [16]}}
     try:
@@ -657,6 +681,8 @@ def _build_multi(case):
     kw = {}
     if case["algo"] in MA_DET:
         kw.update(O_U_noise=bool(case["ou"]), expl_noise=float(case["expl"]), vect_noise_dim=max(1, int(case["vect"])))
+    if case.get("head"):
+        kw["net_config"] = _head_config(case["head"])
     try:
         return cls(osp, asp, agent_ids=list(AGENTS), **kw), osp, asp
     except CaseTimeout:
